@@ -150,11 +150,13 @@ class Ctx:
             vo = os.path.join(COQ, "Props", f"{self.prop}.vo")
             if os.path.exists(vo):
                 os.remove(vo)  # always re-check the property file itself (Print Assumptions output)
-            if self.tier == "thorough":
-                subprocess.run(["make", "-f", "Makefile.coq", "clean"], cwd=COQ, stdout=subprocess.DEVNULL,
-                               stderr=subprocess.DEVNULL)
+            # thorough: rebuild the whole dependency cone of the property file from source (make -B), without
+            # touching other properties' build output
+            force = ["-B"] if self.tier == "thorough" else []
             targets = [f"Props/{self.prop}.vo"] + list(extra_targets)
-            r = subprocess.run(["timeout", "1500", "make", "-f", "Makefile.coq", "-j8"] + targets, cwd=COQ,
+            if os.path.exists(os.path.join(COQ, "Corr", f"{self.prop}.v")):
+                targets.append(f"Corr/{self.prop}.vo")
+            r = subprocess.run(["timeout", "1500", "make", "-f", "Makefile.coq", "-j8"] + force + targets, cwd=COQ,
                                capture_output=True, text=True)
         finally:
             lock.close()
